@@ -3,7 +3,116 @@ import GnpyModel
 /- driver handlers for property C11 (ops are named "c11.<name>") -/
 open Lean
 namespace Gnpy.Drv.C11
+open Gnpy.Route
 
-def handlers : List (String × Handler) := []
+/-- edges arrive as `[u, v, metres, pseudo]` in networkx order; the graph functions are table look-ups -/
+def getEdge (j : Json) : R (Nat × Nat × Nat × Nat) := do
+  match ← getArr j with
+  | [u, v, l, p] => return (← getNat u, ← getNat v, ← getNat l, ← getNat p)
+  | _ => throw "edge [u,v,len,pseudo] expected"
+
+def mkGraph (n : Nat) (edges : List (Nat × Nat × Nat × Nat)) : Graph :=
+  let empty : Array (List (Nat × Nat × Nat)) := Array.replicate n []
+  let adj := edges.foldl (fun (a : Array (List (Nat × Nat × Nat))) e =>
+    if e.1 < a.size then a.modify e.1 (fun l => l ++ [(e.2.1, e.2.2.1, e.2.2.2)]) else a) empty
+  let look := fun (u v : Nat) => ((adj.getD u []).find? (fun x => x.1 == v))
+  { n := n
+    succ := fun u => (adj.getD u []).map (·.1)
+    len := fun u v => match look u v with | some x => x.2.1 | none => 0
+    pseudo := fun u v => match look u v with | some x => x.2.2 | none => 0 }
+
+def getGraph (j : Json) : R Graph := do
+  let n ← fNat j "n"
+  let edges ← fList getEdge j "edges"
+  for e in edges do
+    if e.1 ≥ n || e.2.1 ≥ n then throw "edge endpoint out of range"
+  return mkGraph n edges
+
+structure OmsData where
+  omsOf : Nat → Option Nat
+  els : Nat → List Nat
+  rev : Nat → Option Nat
+
+def getOms (j : Json) : R OmsData := do
+  let omsOf ← fList (getOpt getNat) j "oms_of"
+  let els ← fList (getList getNat) j "els"
+  let rev ← match optFld j "rev" with
+    | some r => getList (getOpt getNat) r
+    | none => pure []
+  let a := omsOf.toArray
+  let e := els.toArray
+  let r := rev.toArray
+  return { omsOf := fun v => (a.getD v none), els := fun o => e.getD o [], rev := fun o => r.getD o none }
+
+def decisionJson (g : Graph) (d : Decision) : Json :=
+  match d with
+  | .explicit p => jObj [("kind", jStr "explicit"), ("path", jList jNat p), ("len", jNat (pathLen g p)),
+                         ("w", jNat (pathWeight g p))]
+  | .constrained p => jObj [("kind", jStr "constrained"), ("path", jList jNat p), ("len", jNat (pathLen g p)),
+                            ("w", jNat (pathWeight g p))]
+  | .unconstrained p => jObj [("kind", jStr "unconstrained"), ("path", jList jNat p), ("len", jNat (pathLen g p)),
+                              ("w", jNat (pathWeight g p))]
+  | .noPath => jObj [("kind", jStr "NO_PATH")]
+  | .noPathWithConstraint => jObj [("kind", jStr "NO_PATH_WITH_CONSTRAINT")]
+
+/-- one request: the oracle's decision and the checker's verdict on the implementation's path -/
+def route (j : Json) : R Json := do
+  let g ← getGraph j
+  let s ← fNat j "s"
+  let t ← fNat j "t"
+  let inc ← fList getNat j "inc"
+  let strict ← fBool j "strict"
+  let oms ← getOms j
+  let sR ← fOpt getNat j "sR"
+  let dR ← fOpt getNat j "dR"
+  let path ← fList getNat j "path"
+  let ex := explicitPath g oms.omsOf oms.els sR dR inc s t
+  let d := decideRoute g s t inc strict ex
+  let b0 := bestRoute g s t []
+  let b1 := bestRoute g s t inc
+  return jObj [
+    ("npaths", jNat (simplePaths g s t).length),
+    ("nvalid", jNat (validPaths g s t inc).length),
+    ("explicit", jOpt (jList jNat) ex),
+    ("decision", decisionJson g d),
+    ("best0_len", jOpt jNat (b0.map (pathLen g))),
+    ("best0_w", jOpt jNat (b0.map (pathWeight g))),
+    ("best_len", jOpt jNat (b1.map (pathLen g))),
+    ("best_w", jOpt jNat (b1.map (pathWeight g))),
+    ("check_inc", jBool (checkRoute g s t inc path)),
+    ("check_plain", jBool (checkRoute g s t [] path)),
+    ("path_len", jNat (pathLen g path)),
+    ("path_w", jNat (pathWeight g path))]
+
+def getPair (j : Json) : R (Nat × Bool) := do
+  match ← getArr j with
+  | [a, b] => return (← getNat a, ← getBool b)
+  | _ => throw "[node, strict] expected"
+
+/-- `correct_json_route_list` for one request; names not in the topology are numbered ≥ n -/
+def clean (j : Json) : R Json := do
+  let n ← fNat j "n"
+  let trx ← fList getNat j "trx"
+  let s ← fNat j "s"
+  let t ← fNat j "t"
+  let route ← fList getPair j "route"
+  match correctRouteList (fun v => decide (v < n)) (fun v => trx.contains v) s t route with
+  | .ok r => return jObj [("route", jList (fun (p : Nat × Bool) => Json.arr #[jNat p.1, jBool p.2]) r)]
+  | .error .sourceNotTrx => return jObj [("error", jStr "source")]
+  | .error .destNotTrx => return jObj [("error", jStr "destination")]
+  | .error .strictUnknown => return jObj [("error", jStr "strict-unknown")]
+
+def ispartH (j : Json) : R Json := do
+  return jBool (ispart (← fList getNat j "a") (← fList getNat j "b"))
+
+/-- `find_reversed_path` -/
+def reverse (j : Json) : R Json := do
+  let oms ← getOms j
+  let ends ← fList getNat j "ends"
+  let path ← fList getNat j "path"
+  return jOpt (jList jNat) (reversedPath oms.omsOf oms.els oms.rev (fun v => ends.contains v) path)
+
+def handlers : List (String × Handler) :=
+  [("c11.route", route), ("c11.clean", clean), ("c11.ispart", ispartH), ("c11.reverse", reverse)]
 
 end Gnpy.Drv.C11
